@@ -267,7 +267,7 @@ def render(defs, origin):
 def write(repo=None, outfile=None):
     """returns (status, detail, defs): status 'ok' | 'translator-out-of-grammar'"""
     repo = repo or os.environ.get("VERIF_REPO", "/repo")
-    outfile = outfile or os.path.join(VERIF, "coq", "gen", "FistaGen.v")
+    outfile = outfile or os.path.join(os.environ.get("VERIF_GEN_OUT") or os.path.join(VERIF, "coq", "gen"), "FistaGen.v")
     try:
         defs = generate(repo)
         status, detail = "ok", ""
